@@ -612,6 +612,11 @@ pub fn build_walker(
             }
         },
         Source::Glob { expr, rooted } => {
+            // safety net: the simulator never walks outside its world
+            let ups = expr.split('/').take_while(|c| *c == "..").count();
+            if !*rooted && ups > depth_of(&w.base) {
+                return Err(format!("glob {:?} from base {:?} would leave the world", expr, w.base));
+            }
             let text = glob_text(expr, *rooted, &world.root_text);
             let glob = Glob::new(&text).map_err(|e| format!("glob {:?}: {}", text, e))?;
             let it = glob.walk_with_behavior(base, beh);
